@@ -72,6 +72,11 @@ def one(ctx: Ctx, spec, dtype, dependent=False, disjoint=False, symmetric=False)
     else:
         J = m_int(rng, m, n)
     n = len(J[0])
+    if not dependent and rng.random() < (0.5 if spec.ties else 0.2):
+        # small gradients (entries ~1e-6, exactly scaled): the laws are scale-free; absolute constants hidden in a distance or
+        # a threshold are not
+        J = [[v / 2 ** 20 for v in r] for r in J]
+        ctx.count("family", f"{spec.name}:scaled-2^-20")
     Jt = to_tensor(J, dtype)
     _FLOOR[0] = float(Jt.abs().max())
     pv = None
@@ -244,7 +249,10 @@ def many_zero_columns(ctx: Ctx, spec):
     rng = ctx.rng
     m = max(3, spec.min_rows)
     sig = [Fr(20), Fr(5)] + [Fr(1)] * (m - 2)
-    J, _, _, _ = m_svd(rng, m, m, sigmas=sig)
+    # (also small gradients: largest singular value 2e-2 or 2e-3, well above every aggregator's norm_eps = 1e-4 — unless the
+    # threshold is made to grow with the number of columns)
+    sc = rng.choice([Fr(1), Fr(1, 1000), Fr(1, 10000)])
+    J, _, _, _ = m_svd(rng, m, m, sigmas=sig, scale=sc)
     Jt = to_tensor(J, torch.float32)
     extra = rng.choice([50000, 80000])
     pos = rng.choice([0, m, rng.randint(0, m)])
